@@ -84,6 +84,36 @@ func c05Input(c *core.Ctx, r *core.Reporter) {
 				}
 				return true
 			})
+			// the guard spelling: `t, ok := ttype.(*K); if !ok { leave }` — the arm is what follows in the block
+			ast.Inspect(fd.Body, func(x ast.Node) bool {
+				blk, ok := x.(*ast.BlockStmt)
+				if !ok {
+					return true
+				}
+				for i, st := range blk.List {
+					as, ok := st.(*ast.AssignStmt)
+					if !ok || len(as.Lhs) != 2 || len(as.Rhs) != 1 || i+1 >= len(blk.List) {
+						continue
+					}
+					ta, ok := as.Rhs[0].(*ast.TypeAssertExpr)
+					if !ok || ta.Type == nil {
+						continue
+					}
+					guard, ok := blk.List[i+1].(*ast.IfStmt)
+					if !ok {
+						continue
+					}
+					if ue, ok := guard.Cond.(*ast.UnaryExpr); !ok || ue.Op != token.NOT || core.ObjOf(info, ue.X) != core.ObjOf(info, as.Lhs[1]) {
+						continue
+					}
+					if st := info.TypeOf(ta.X); st != nil && (core.TypeName(st) == "Type" || core.TypeName(st) == "Input") {
+						if k := core.TypeName(info.TypeOf(ta.Type)); arms[k] == nil {
+							arms[k] = &ast.BlockStmt{Lbrace: as.Pos(), List: blk.List[i+1:], Rbrace: blk.Rbrace}
+						}
+					}
+				}
+				return true
+			})
 		} else {
 			for _, sw := range core.TypeSwitches(info, fd.Body, false) {
 				if sw.Subject != nil && (core.TypeName(sw.Subject) == "Input" || core.TypeName(sw.Subject) == "Type") {
@@ -118,6 +148,44 @@ func c05Input(c *core.Ctx, r *core.Reporter) {
 			selfCalls := 0
 			calls := map[string]bool{}
 			strs := []string{}
+			// a tail call written as a loop: the type parameter is re-assigned and the function's loop continued
+			var typeParam types.Object
+			for _, fl := range fd.Type.Params.List {
+				for _, nm := range fl.Names {
+					if tn := core.TypeName(info.TypeOf(fl.Type)); tn == "Type" || tn == "Input" {
+						typeParam = info.Defs[nm]
+					}
+				}
+			}
+			hasContinue := false
+			tailAssigns := 0
+			ast.Inspect(arm, func(x ast.Node) bool {
+				switch y := x.(type) {
+				case *ast.BranchStmt:
+					if y.Tok == token.CONTINUE {
+						hasContinue = true
+					}
+				case *ast.AssignStmt:
+					if y.Tok == token.ASSIGN {
+						for _, l := range y.Lhs {
+							if id, ok := l.(*ast.Ident); ok && typeParam != nil && info.Uses[id] == typeParam {
+								tailAssigns++
+							}
+						}
+					}
+				}
+				return true
+			})
+			bareLoop := false
+			ast.Inspect(fd.Body, func(x ast.Node) bool {
+				if fs, ok := x.(*ast.ForStmt); ok && fs.Cond == nil && fs.Init == nil && fs.Post == nil && fs.Pos() <= arm.Pos() && arm.End() <= fs.End() {
+					bareLoop = true
+				}
+				return true
+			})
+			if hasContinue || bareLoop {
+				selfCalls += tailAssigns
+			}
 			ast.Inspect(arm, func(x ast.Node) bool {
 				switch y := x.(type) {
 				case *ast.CallExpr:
